@@ -412,7 +412,7 @@ def _prefix_for(d, v):
 _D = ('d', None)          # one symbolic decimal digit
 def _H(lo='0', hi='f'): return ('x', None)
 LITERAL_TEXTS = {
-    # name: (declaration prefix, literal pieces, suffix).  pieces: str | ('d',) decimal digit | ('x',) hex digit | ('b',) binary digit | ('o',) octal digit | ('c', quote) printable character other than quote and $
+    # name: (declaration prefix, literal pieces, suffix).  pieces: str | ('d',) decimal digit | ('x',) hex digit | ('b',) binary digit | ('o',) octal digit | ('c', quote) printable character other than quote and $ | ('e',) one of $ a N L 4 1
     'time_of_day_fraction': ('  x : TIME_OF_DAY := ', ['TOD#12:30:15.', ('d',), ('d',), ('d',)], ';\n'),
     'time_of_day_fields': ('  x : TIME_OF_DAY := ', ['TIME_OF_DAY#', ('d',), ('d',), ':', ('d',), ('d',), ':', ('d',), ('d',)], ';\n'),
     'date_and_time_fraction': ('  x : DATE_AND_TIME := ', ['DT#2020-01-01-12:30:15.', ('d',), ('d',)], ';\n'),
@@ -427,6 +427,8 @@ LITERAL_TEXTS = {
     'binary_integer': ('  x : DINT := ', ['2#', ('b',), ('b',), ('b',)], ';\n'),
     'octal_integer': ('  x : DINT := ', ['8#', ('o',), ('o',)], ';\n'),
     'single_byte_string': ("  x : STRING := ", ["'", ('c', "'"), ('c', "'"), "'"], ';\n'),
+    'single_byte_string_escapes': ("  x : STRING := ", ["'", ('e',), ('e',), ('e',), ('e',), "'"], ';\n'),
+    'double_byte_string_escapes': ('  x : WSTRING := ', ['"', ('e',), ('e',), ('e',), ('e',), '"'], ';\n'),
     'double_byte_string': ('  x : WSTRING := ', ['"', ('c', '"'), ('c', '"'), '"'], ';\n'),
     'string_with_length': ("  x : STRING[", [('d',), ('d',)], "] := 'ab';\n"),
     'subrange_variable': ('  x : INT(', [('d',), '..', '1', ('d',)], ');\n'),
@@ -453,6 +455,7 @@ def _k4_job(job):
             elif pc[0] == 'o': M.assume(z3.And(z3.UGE(b, 48), z3.ULE(b, 55)))
             elif pc[0] == 'x': M.assume(z3.Or(z3.And(z3.UGE(b, 48), z3.ULE(b, 57)), z3.And(z3.UGE(b, 65), z3.ULE(b, 70))))
             elif pc[0] == 'c': M.assume(z3.And(z3.UGE(b, 0x20), z3.ULE(b, 0x7E), b != ord(pc[1]), b != 0x24))
+            elif pc[0] == 'e': M.assume(z3.Or([b == ord(ch) for ch in '$aNL41']))        # the characters escape sequences are made of
             lit.append(b)
         st['lit'] = lit
         text = list((head + pre).encode()) + lit + list((post + tail).encode())
